@@ -649,6 +649,12 @@ func (r *proxyStreamReceiver) Run(
 		// Register receiver for watermark propagation to late-registering shards
 		r.shardManager.RegisterActiveReceiver(r.sourceShardID, r)
 		defer func() {
+			// A successor that terminated this receiver (TerminatePreviousLocalReceiver) has already removed our ack
+			// channel and cancel func and registers its own entries under the same shard: only clean up entries that
+			// are still ours, or we would remove the successor's cancel func and active-receiver registration.
+			if current, ok := r.shardManager.GetLocalAckChan(r.sourceShardID); !ok || current != r.ackChan {
+				return
+			}
 			r.shardManager.RemoveLocalAckChan(r.sourceShardID, r.ackChan)
 			r.shardManager.RemoveLocalReceiverCancelFunc(r.sourceShardID)
 			r.shardManager.UnregisterActiveReceiver(r.sourceShardID)
